@@ -4,7 +4,7 @@
 From Coq Require Import List Bool Arith NArith Lia.
 From Coq.Strings Require Import Byte.
 From GI Require Import Gen.ProxyConsts Proxy.Proxy Proxy.ProxyStrings Proxy.ProxyFacts Proxy.ProxyConc Proxy.ProxyRefine.
-From GI Require Import Gen.ParConsts Par.ParWork Par.ParLib Par.ParCache Par.ParCacheProofs.
+From GI Require Import Gen.ParConsts Par.ParWork Par.ParLib Par.ParCache Par.ParCacheBase Par.ParCacheProofs.
 Import ListNotations.
 
 (* bijective base-256 numeration: digits 1..256 *)
@@ -87,7 +87,7 @@ Lemma event_level_cache_reachable' : forall A d ka kz name_of Zf (ps : list (pro
   arun A d ka kz name_of Zf sch (ainit A ps) = Some st ->
   (forall n, name_of (ka n) = n) -> (forall n, name_of (kz n) = n) ->
   (forall n v, In (n, v) (flat_map (zip_ops d) ps) -> Zf n = v) ->
-  exists sc, creachable fval_id (map (calls A d ka kz) ps) sc /\
+  exists sc, creachable fval_id deps0 (map (calls A d ka kz) ps) sc /\
              ents (acs A st) = ents sc /\ plain (acs A st) = plain sc.
 Proof.
   intros A d ka kz name_of Zf ps sch st Hrun H1 H2 H3.
